@@ -51,9 +51,12 @@ func (a StrAlt) Concrete() bool {
 }
 
 type StrVal struct {
-	Alts   []StrAlt
-	Opaque bool // content unknown (message text); inspecting it is unsupported
-	MinLen int  // lower bound on the length of an opaque string
+	Alts     []StrAlt
+	Opaque   bool    // content unknown (message text); inspecting it is unsupported
+	MinLen   int     // lower bound on the length of an opaque string
+	OpPrefix *StrVal // known leading text of an opaque string (may be nil)
+	OpFmt    string  // opaque strings produced by Sprintf: the format ...
+	OpArgs   []Value // ... and its operands (equal format and operands => equal text)
 }
 
 func mkStr(s string) *StrVal { return &StrVal{Alts: []StrAlt{{G: TTrue, S: s}}} }
